@@ -60,6 +60,8 @@ VARIABLE DevLostWakeup       \* a renominated job that is then served by collaps
 VARIABLES
   ver,        \* task -> current version (1-based); part of the task hash
   evalTab,    \* backend Evaluation table: set of <<task, ver, arg>> with a recorded single reduction
+  catchTab,   \* what catch() has stored for "the error was recovered": set of <<guarded task, arg,
+              \* version of the recover task, error id>> (keyed by the *name* of the guarded task)
   pc,         \* index into Plan of the current run (0 before the first)
   mode,       \* "real" | "dry" | "idle"
   useCache,   \* cache argument of the current run
@@ -76,7 +78,7 @@ VARIABLES
   outs,       \* history: outcome record per finished run
   acts        \* history: choices of the current run (for spec -> code replay)
 
-vars == <<DevLostWakeup, pi, ver, evalTab, pc, mode, useCache, jobs, evq, running, pend, waiting, used, cse, wf,
+vars == <<DevLostWakeup, pi, ver, evalTab, catchTab, pc, mode, useCache, jobs, evq, running, pend, waiting, used, cse, wf,
           rootval, submitted, outs, acts>>
 
 InSeq(x, s) == \E i \in 1..Len(s) : s[i] = x
@@ -93,6 +95,9 @@ Parent(j) == SubSeq(j, 1, Len(j) - 1)
 NewJob(t, arg, ph) ==
   [t |-> t, arg |-> arg, ph |-> ph, cached |-> "no", res |-> 0, tw |-> <<>>, failed |-> FALSE,
    nom |-> FALSE,   \* nom: nominated from the limits queue by _check_jobs_pending_limits
+   caught |-> FALSE, rec |-> <<0>>,   \* failed under a catch: the job of the recover call
+   isrec |-> FALSE, for |-> <<0>>,    \* a recover job, and the failed sibling it stands in for
+   ck |-> <<>>,                       \* recover job: the catch entry it completes when it resolves
    held |-> FALSE,  \* the job currently holds the units of its limits (consumed, not yet released)
    fk |-> 0,        \* fork key of the handle argument (0: the task takes no handle / not yet forked)
    nf |-> 0]        \* handle_forks counter of this job as a parent
@@ -109,7 +114,7 @@ StartRun(m, c) ==
 
 Init ==
   /\ pi \in 1..Len(Progs) /\ DevLostWakeup \in DevChoices
-  /\ ver = [t \in TaskNames |-> 1] /\ evalTab = {} /\ pc = 0 /\ mode = "idle" /\ useCache = TRUE
+  /\ ver = [t \in TaskNames |-> 1] /\ evalTab = {} /\ catchTab = {} /\ pc = 0 /\ mode = "idle" /\ useCache = TRUE
   /\ jobs = <<>> /\ evq = <<>> /\ running = {} /\ pend = <<>> /\ waiting = <<>>
   /\ used = [r \in Res |-> 0] /\ cse = <<>> /\ wf = "idle" /\ rootval = 0
   /\ submitted = <<>> /\ outs = <<>> /\ acts = <<>>
@@ -225,6 +230,24 @@ PosOf(t, parg, idx) == CHOOSE i \in DPos(t, parg) : JobIdx(t, parg, i) = idx
 \* child spec of an existing child job k = Append(j, idx)
 SpecOfJob(k) == LET j == Parent(k) IN CSpecs(jobs[j].t)[PosOf(jobs[j].t, jobs[j].arg, k[Len(k)])]
 
+(***************************************************************************)
+(* catch(t(arg), Exception, rec): a child spec with g = 1 is guarded.  When *)
+(* the guarded job fails, promise_catch evaluates rec(error) as another job *)
+(* of the same parent (created at that moment) instead of rejecting the     *)
+(* parent; its value stands in for the child.  When the recovery succeeds   *)
+(* catch() stores the recover call under a key made of the guarded          *)
+(* expression's hash (task NAME and argument, not the task hash) and the    *)
+(* recover task; a later execution that finds the entry evaluates the       *)
+(* stored recover call directly and never starts the guarded task.          *)
+(***************************************************************************)
+RecTask == "rec"
+TaskIx(t) == CHOOSE i \in 1..Len(P.tnames) : P.tnames[i] = t
+ErrId(t, x) == IF KindOf(t) = "noexec" THEN 1999 ELSE 1000 + 10 * x + TaskIx(t)
+Guarded(c) == c.g = 1
+NewRec(errid, orig, key) ==
+  [NewJob(RecTask, errid, "execq") EXCEPT !.isrec = TRUE, !.for = orig, !.ck = key]
+CatchHit(t, x) == {c \in catchTab : c[1] = t /\ c[2] = x /\ c[3] = ver[RecTask]}
+
 Done(j) ==
   LET holds == HoldsUnits(j)
       t == jobs[j].t
@@ -242,9 +265,13 @@ Done(j) ==
       jobs1 == [jj \in DOMAIN jobs |->
                   IF jj = j THEN [jobs[jj] EXCEPT !.ph = IF nd = 0 THEN "resolveq" ELSE "evalwait", !.held = FALSE]
                   ELSE IF InSeq(jj, ready) THEN [jobs[jj] EXCEPT !.ph = "execq", !.nom = TRUE] ELSE jobs[jj]]
+      \* a guarded child whose recovery is in catch()'s table is replaced by the stored recover call
+      replayRec(idx) == Guarded(spec(idx)) /\ known(idx) /\ useCache /\ CatchHit(spec(idx).t, argOf(idx)) # {}
       jobs2 == [k \in {Append(j, idx) : idx \in 1..nd} |->
-                  NewJob(spec(k[Len(k)]).t, argOf(k[Len(k)]),
-                         IF known(k[Len(k)]) THEN "execq" ELSE "argwait")] @@ jobs1
+                  LET idx == k[Len(k)] IN
+                  IF replayRec(idx)
+                  THEN LET c == CHOOSE c \in CatchHit(spec(idx).t, argOf(idx)) : TRUE IN NewRec(c[4], <<0>>, c)
+                  ELSE NewJob(spec(idx).t, argOf(idx), IF known(idx) THEN "execq" ELSE "argwait")] @@ jobs1
       evKids == SelectSeq([idx \in 1..nd |-> [ty |-> "exec", j |-> Append(j, idx)]],
                           LAMBDA e : known(e.j[Len(e.j)]))
       evSelf == IF nd = 0 THEN << [ty |-> "resolve", j |-> j] >> ELSE <<>>
@@ -257,8 +284,10 @@ Done(j) ==
 \* the lazy sum ranges over child *positions*: a shared job counts once per position
 SumKids(j) == LET t == jobs[j].t parg == jobs[j].arg IN
   FoldSeq(LAMBDA x, a : a + x, 0,
-          [i \in 1..Len(CSpecs(t)) |-> jobs[Append(j, JobIdx(t, parg, i))].res])
-LeafVal(j) == jobs[j].arg + TVer(jobs[j].t).add
+          [i \in 1..Len(CSpecs(t)) |->
+             LET c == jobs[Append(j, JobIdx(t, parg, i))] IN
+             IF c.ph = "rejected" /\ c.caught THEN jobs[c.rec].res ELSE c.res])
+LeafVal(j) == IF KindOf(jobs[j].t) = "const" THEN TVer(jobs[j].t).add ELSE jobs[j].arg + TVer(jobs[j].t).add
 
 Resolve(j) ==
   LET t == jobs[j].t
@@ -267,14 +296,16 @@ Resolve(j) ==
              ELSE IF KindOf(t) = "calls" /\ Len(CSpecs(t)) > 0 THEN SumKids(j)
              ELSE LeafVal(j)
       par == Parent(j)
-      myidx == j[Len(j)]
+      \* a recover job stands in for the failed sibling: it wakes that sibling's dependants
+      myidx == IF jobs[j].isrec /\ jobs[j].for # <<0>> THEN jobs[j].for[Len(jobs[j].for)] ELSE j[Len(j)]
       nsib == IF j = <<>> THEN 0 ELSE Cardinality(Kids(par))
       depsSeq == IF j = <<>> THEN <<>> ELSE
                  SelectSeq([i \in 1..nsib |-> Append(par, i)],
                            LAMBDA s : s \in DOMAIN jobs /\ jobs[s].ph = "argwait"
                                       /\ SpecOfJob(s).k = "s"
                                       /\ JobIdx(jobs[par].t, jobs[par].arg, SpecOfJob(s).i) = myidx)
-      parDone == j # <<>> /\ \A s \in Kids(par) \ {j} : jobs[s].ph = "resolved"
+      parDone == j # <<>> /\ \A s \in Kids(par) \ {j} :
+                               jobs[s].ph = "resolved" \/ (jobs[s].ph = "rejected" /\ jobs[s].caught)
       twins == jobs[j].tw
       jobs1 == [jj \in DOMAIN jobs |->
                  IF jj = j THEN [jobs[jj] EXCEPT !.ph = "resolved", !.res = val]
@@ -302,24 +333,40 @@ Reject(j) ==
       k == Key(j)
       twins == jobs[j].tw
       failing == <<j>> \o twins
-      parsSeq == SelectSeq(failing, LAMBDA x : x # <<>>)
-      pars == [i \in 1..Len(parsSeq) |-> Parent(parsSeq[i])]
-      newPars == SelectSeq(pars, LAMBDA p : ~jobs[p].failed)
-      firstIdx(s) == {i \in 1..Len(s) : \A i2 \in 1..(i - 1) : s[i2] # s[i]}
-      uniqPars == SelectSeq([i \in 1..Len(newPars) |-> IF i \in firstIdx(newPars) THEN newPars[i] ELSE <<0>>],
-                            LAMBDA p : p # <<0>>)
+      guarded(x) == x # <<>> /\ ~jobs[x].isrec /\ Guarded(SpecOfJob(x))
+      \* twins have different parents (duplicates under one parent share one job), so every parent
+      \* gets at most one new recover job in this step
+      recPath(x) == Append(Parent(x), Cardinality(Kids(Parent(x))) + 1)
+      recKey(x) == <<jobs[x].t, jobs[x].arg, ver[RecTask], ErrId(jobs[x].t, jobs[x].arg)>>
+      caughtSet == {failing[i] : i \in {n \in 1..Len(failing) : guarded(failing[n])}}
+      \* unguarded failures reject their parent: one event per parent, unless it failed already
+      plain == SelectSeq(failing, LAMBDA x : x # <<>> /\ ~guarded(x))
+      pars == [i \in 1..Len(plain) |-> Parent(plain[i])]
+      firstIdx(sq) == {i \in 1..Len(sq) : \A i2 \in 1..(i - 1) : sq[i2] # sq[i]}
+      evOf(i) == LET x == failing[i] IN
+                 IF x = <<>> THEN <<>>
+                 ELSE IF guarded(x) THEN << [ty |-> "exec", j |-> recPath(x)] >>
+                 ELSE LET p == Parent(x)
+                          n == CHOOSE m \in 1..Len(plain) : plain[m] = x
+                      IN IF ~jobs[p].failed /\ n \in firstIdx(pars) THEN << [ty |-> "reject", j |-> p] >> ELSE <<>>
+      evs == FoldSeq(LAMBDA i, acc : acc \o evOf(i), <<>>, [i \in 1..Len(failing) |-> i])
+      failPars == {e.j : e \in {evs[i] : i \in {n \in 1..Len(evs) : evs[n].ty = "reject"}}}
       jobs1 == [jj \in DOMAIN jobs |->
                  IF InSeq(jj, failing)
                  THEN [jobs[jj] EXCEPT !.ph = "rejected", !.held = FALSE,
-                                       !.cached = IF jj = j THEN jobs[j].cached ELSE "cse"]
+                                       !.cached = IF jj = j THEN jobs[j].cached ELSE "cse",
+                                       !.caught = jj \in caughtSet,
+                                       !.rec = IF jj \in caughtSet THEN recPath(jj) ELSE <<0>>]
                  ELSE IF InSeq(jj, ready) THEN [jobs[jj] EXCEPT !.ph = "execq", !.nom = TRUE]
-                 ELSE IF InSeq(jj, uniqPars) THEN [jobs[jj] EXCEPT !.failed = TRUE]
+                 ELSE IF jj \in failPars THEN [jobs[jj] EXCEPT !.failed = TRUE]
                  ELSE jobs[jj]]
-  IN /\ jobs' = jobs1 /\ used' = u1 /\ waiting' = rn[2]
+      jobs2 == [p \in {recPath(x) : x \in caughtSet} |->
+                  LET x == CHOOSE y \in caughtSet : recPath(y) = p IN
+                  NewRec(ErrId(jobs[x].t, jobs[x].arg), x, recKey(x))] @@ jobs1
+  IN /\ jobs' = jobs2 /\ used' = u1 /\ waiting' = rn[2]
      /\ cse' = IF k \in DOMAIN cse THEN cse ELSE (k :> [ok |-> FALSE, v |-> 0]) @@ cse
      /\ pend' = [kk \in {x \in DOMAIN pend : pend[x] # j} |-> pend[kk]]
-     /\ evq' = Tail(evq) \o ExecEvs(ready)
-                \o [i \in 1..Len(uniqPars) |-> [ty |-> "reject", j |-> uniqPars[i]]]
+     /\ evq' = Tail(evq) \o ExecEvs(ready) \o evs
      /\ wf' = IF InSeq(<<>>, failing) THEN "err" ELSE wf
      /\ UNCHANGED <<running, submitted, evalTab, rootval>>
 
@@ -334,6 +381,8 @@ Step ==
             [] e.ty = "done" -> Done(e.j)
             [] e.ty = "resolve" -> Resolve(e.j)
             [] e.ty = "reject" -> Reject(e.j)
+       \* on_recover: when the recover job resolves, catch() stores the recover call
+       /\ catchTab' = IF e.ty = "resolve" /\ jobs[e.j].isrec THEN catchTab \cup {jobs[e.j].ck} ELSE catchTab
        /\ acts' = Append(acts, [c |-> <<"step">>, h |-> e.ty, j |-> e.j, o |-> ObsP])
   /\ UNCHANGED <<DevLostWakeup, pi, ver, pc, mode, useCache, outs>>
 
@@ -342,7 +391,8 @@ Finish(j) ==
   /\ running' = running \ {j}
   /\ jobs' = [jobs EXCEPT ![j].ph = "doneq"]
   /\ evq' = Append(evq, [ty |-> IF KindOf(jobs[j].t) = "fail" THEN "reject" ELSE "done", j |-> j])
-  /\ UNCHANGED <<DevLostWakeup, pi, pend, waiting, used, cse, wf, rootval, submitted, evalTab, ver, pc, mode, useCache, outs>>
+  /\ UNCHANGED <<DevLostWakeup, pi, pend, waiting, used, cse, wf, rootval, submitted, evalTab, catchTab, ver, pc, mode,
+                 useCache, outs>>
   /\ acts' = Append(acts, [c |-> <<"finish", j>>, h |-> "finish", j |-> j, o |-> ObsP])
 
 \* the run is over: run() returned, raised, or (dry) stopped with nothing left to process
@@ -360,9 +410,9 @@ NextRun ==
        IF st.k = "edit"
        THEN /\ ver' = [ver EXCEPT ![st.t] = IF @ = Len(Tasks[st.t].vers) THEN 1 ELSE @ + 1]
             /\ mode' = "idle" /\ wf' = "idle"
-            /\ UNCHANGED <<evalTab, useCache, jobs, evq, running, pend, waiting, used, cse, rootval,
+            /\ UNCHANGED <<evalTab, catchTab, useCache, jobs, evq, running, pend, waiting, used, cse, rootval,
                            submitted, acts>>
-       ELSE /\ StartRun(st.mode, st.cache) /\ UNCHANGED <<ver, evalTab>>
+       ELSE /\ StartRun(st.mode, st.cache) /\ UNCHANGED <<ver, evalTab, catchTab>>
 
 Next == Step \/ (\E j \in running : Finish(j)) \/ NextRun
 Spec == Init /\ [][Next]_vars
@@ -387,7 +437,7 @@ NoHang == (~DevLostWakeup /\ wf = "pending" /\ mode = "real") => (evq # <<>> \/ 
 \* C09: when a real run returns, everything is settled
 SettledAtReturn == (wf = "ok") =>
    /\ waiting = <<>> /\ running = {} /\ \A r \in Res : used[r] = 0
-   /\ \A j \in DOMAIN jobs : jobs[j].ph = "resolved"
+   /\ \A j \in DOMAIN jobs : jobs[j].ph = "resolved" \/ (jobs[j].ph = "rejected" /\ jobs[j].caught)
 \* C09 liveness
 Terminates == []<>(RunOver)
 \* C28: a dry run submits nothing
@@ -402,6 +452,7 @@ RECURSIVE RefKids(_, _, _, _, _)
 RefVal(t, arg, vr) ==
   LET d == Tasks[t].vers[vr[t]] IN
   IF d.kind \in {"fail", "noexec"} THEN <<FALSE, 0>>
+  ELSE IF d.kind = "const" THEN <<TRUE, d.add>>
   ELSE IF d.kind = "leaf" \/ Len(d.children) = 0 THEN <<TRUE, arg + d.add>>
   ELSE RefKids(t, arg, vr, 1, <<>>)
 RefKids(t, arg, vr, i, got) ==
@@ -412,6 +463,8 @@ RefKids(t, arg, vr, i, got) ==
            a == IF c.k = "c" THEN c.v ELSE IF c.k = "p" THEN arg + c.v ELSE got[c.i]
            r == RefVal(c.t, a, vr)
        IN IF r[1] THEN RefKids(t, arg, vr, i + 1, Append(got, r[2]))
+          ELSE IF c.g = 1      \* caught: the recover task's value stands in
+               THEN RefKids(t, arg, vr, i + 1, Append(got, RefVal(RecTask, 0, vr)[2]))
           ELSE \* the call fails, but later siblings that do not depend on it may still fail too;
                \* the outcome is "error" either way
                <<FALSE, 0>>
@@ -436,7 +489,7 @@ DryPredicts ==
        /\ outs[i].res # "err" \/ outs[i + 1].res = "err"
 
 OutsView == [i \in 1..Len(outs) |-> [outs[i] EXCEPT !.acts = <<>>]]
-View == <<DevLostWakeup, pi, ver, evalTab, pc, mode, useCache, jobs, evq, running, pend, waiting, used, cse, wf, rootval,
+View == <<DevLostWakeup, pi, ver, evalTab, catchTab, pc, mode, useCache, jobs, evq, running, pend, waiting, used, cse, wf, rootval,
           submitted, OutsView>>
 \* a hang is a terminal state too (the behaviour is replayed up to it)
 Hung == wf = "pending" /\ mode = "real" /\ evq = <<>> /\ running = {}
